@@ -124,7 +124,9 @@ func c03Profile(variant string) func(c *sim.RunCtx) {
 				// the final sync, blockDevice.Sync as data syncer
 				pp.cfg.WConfig = true
 				if !pp.cfg.Hier {
-					pp.cfg.KeyFormat = 0
+					if !pp.cfg.AC {
+						pp.cfg.KeyFormat = 0
+					}
 				}
 			}
 			m := newMedia(pp.cfg)
